@@ -51,7 +51,8 @@ def g_score(draw):
     return {"ubm": ubm, "models": models, "stats": stats, "offsets": offsets,
             "model_form": gen.choice(draw, ["machines", "stack", "list", "single2d"]),
             "stats_form": gen.choice(draw, ["list", "single"]),
-            "normalise": gen.boolean(draw), "ubm_as_map": gen.boolean(draw)}
+            "normalise": gen.boolean(draw), "ubm_as_map": gen.choice(draw, [False, True, "ml_with_seed", False]),
+            "stats_layout": gen.choice(draw, ["C", "C", "F", "strided"])}
 
 
 def call(case, ubm_machine, models=None, stats=None, offsets="case", normalise=None):
@@ -74,7 +75,7 @@ def call(case, ubm_machine, models=None, stats=None, offsets="case", normalise=N
         marg = [np.array(mm) for mm in models]
     else:
         marg = np.array(models[0])
-    sobj = [sut.make_stats(s) for s in stats]
+    sobj = [sut.make_stats(s, layout=case.get("stats_layout", "C")) for s in stats]
     sarg = sobj[0] if (case["stats_form"] == "single" and len(sobj) == 1) else sobj
     off = case["offsets"] if isinstance(offsets, str) else offsets
     kw = {}
@@ -86,6 +87,14 @@ def call(case, ubm_machine, models=None, stats=None, offsets="case", normalise=N
 
 def ubm_arg(case):
     ubm = sut.make_gmm(case["ubm"])
+    if case["ubm_as_map"] == "ml_with_seed":
+        # an ML machine warm-started from another GMM keeps that GMM in its `ubm` attribute; it is NOT a MAP
+        # machine, so linear scoring is relative to ITS OWN parameters
+        seed_p = dict(case["ubm"], means=np.array(case["ubm"]["means"]) - 0.9, variances=np.array(case["ubm"]["variances"]) * 0.6)
+        m = sut.GMMMachine(n_gaussians=case["ubm"]["C"], trainer="ml", ubm=sut.make_gmm(seed_p))
+        m.variance_thresholds = ubm.variance_thresholds
+        m.means, m.variances, m.weights = np.array(ubm.means), np.array(ubm.variances), np.array(ubm.weights)
+        return m
     if case["ubm_as_map"]:
         adapted = sut.GMMMachine(n_gaussians=case["ubm"]["C"], trainer="map", ubm=ubm)
         # a MAP machine whose OWN means and variances differ from its prior's (as after adaptation with
@@ -108,7 +117,7 @@ def c_formula(ctx, case):
     ctx.note(C != F and len(set(ts)) >= 2 and case["offsets"] is not None,
              "models:" + case["model_form"], "stats:" + case["stats_form"],
              "offsets:" + ("none" if case["offsets"] is None else ("stack" if np.ndim(case["offsets"]) == 3 else "one")),
-             "normalised" if case["normalise"] else "raw", "ubm:map" if case["ubm_as_map"] else "ubm:prior",
+             "normalised" if case["normalise"] else "raw", "ubm:%s" % (case["ubm_as_map"] if isinstance(case["ubm_as_map"], str) else ("map" if case["ubm_as_map"] else "prior")),
              "zero-frame" if 0 in ts else None, "C!=F" if C != F else "C==F")
     ctx.check(got.shape == want.shape, "score shape %s, expected (n_models, n_tests) = %s" % (got.shape, want.shape), "shape")
     # scale for the absolute tolerance: sum of |terms|
